@@ -100,6 +100,16 @@ theorem tie_server_start :
     ((seqOf "proxy.go:Proxy.server").take 2 = ["call:proxy.listen", "return"]) ∧
     subseq ["call:net.Listen", "send:proxy.started", "return", "send:proxy.started", "return"] (seqOf "proxy.go:Proxy.listen") = true := by decide
 
+/-- The registry of a proxy's sockets is keyed by link name: under `<name>upstream` the accept loop
+stores the socket that the link of that name writes to (its destination), likewise for
+`<name>downstream`; a finished link closes its destination and removes its own name (`tie_link_write`).
+This is what `Proxy.step (.linkEnd x)` models: the socket unregistered is the socket just closed. -/
+theorem tie_registry :
+    subseq ["set:connections.list[name+\"upstream\"]", "is:upstream", "set:connections.list[name+\"downstream\"]", "is:client",
+            "call:Toxics.StartLink", "args:name+\"upstream\",client,upstream,stream.Upstream",
+            "call:Toxics.StartLink", "args:name+\"downstream\",upstream,client,stream.Downstream"]
+      (seqOf "proxy.go:Proxy.server") = true := by decide
+
 theorem tie_start : subseq ["set:proxy.tomb", "go:proxy.server", "recv:proxy.started", "set:proxy.Enabled"] (seqOf "proxy.go:start") = true := by decide
 
 theorem tie_update : subseq ["call:proxy.Lock", "call:proxy.Differs", "call:stop", "set:proxy.Listen", "set:proxy.Upstream", "call:start", "call:stop"]
